@@ -325,6 +325,35 @@ func c09(r *Run) {
 			}
 		}
 	}
+	// every start of a handler-only task (onProcess(nil, handler)) waits for OnConnect: it is reached only through the gate of
+	// onRequest(), or behind the same test (state != none, or no OnConnect installed)
+	{
+		getState := w.MustFn("(*connection).getState")
+		stNone := w.ConstInt("connStateNone")
+		stateNotNone := cmpAtom(isCallOf(getState), isConstEq(stNone), neqRel)
+		isOnConnLoad := func(v ssa.Value) bool {
+			c, ok := v.(*ssa.Call)
+			if !ok {
+				return false
+			}
+			a := asAtomic(c)
+			return a != nil && a.Op == "Load" && structFieldOfAddr(a.Addr) == "onEvent.onConnectCallback"
+		}
+		onConnUnset := cmpAtom(isOnConnLoad, isNilConst, eqRel)
+		for _, site := range callSitesOf(w, ro.onProcess) {
+			fn := site.Parent()
+			if fn == ro.onRequestM || w.FnName(fn) == "(*connection).onConnect" {
+				continue // the gate itself (C06.R5) and the connect task's own start
+			}
+			if !isNilConst(argVal(callCommon(site), 0)) {
+				continue
+			}
+			r.guarded("C09.R2:handler-task-waits-for-onconnect:"+w.FnName(fn), "a handler-only task is started outside onRequest() only behind the same gate: OnConnect has finished (state != none) or none is installed - otherwise OnRequest would start before OnConnect", fn, site, anyAtom(stateNotNone, onConnUnset), nil, "guarded by state != none | onConnect == nil")
+		}
+	}
+	if r.keep == nil {
+		r.borrow([]string{"C06.R3:SetOnRequest-kicks"}, "C06.R3", "C09.R2", func() { c06(r) })
+	}
 	_ = fmt.Sprint
 }
 
